@@ -107,7 +107,7 @@ Qed.
 
 Theorem row_ok_sound op s : row_ok op s = true -> row_sound op s.
 Proof.
-  intros Hok. unfold row_sound. destruct s as [T e|e|T e sf uf| | | |]; try discriminate.
+  intros Hok. unfold row_sound. destruct s as [T e|e|T e sf uf| | | | |]; try discriminate.
   - (* SAssign *)
     split; [|split; [|split]].
     + intros args d Hd. cbn [row_ok] in Hok.
